@@ -63,7 +63,25 @@ def shard(args):
                     plan.append(('condprio', i, 5))
                     present[i] = 5
                     cond_refs.add(i)
-                elif r < 0.08 and idle and len(present) < 12:
+                elif r < 0.13 and len(set(present) - cond_refs) >= 1 and len(present) >= 2:
+                    # the priority of one message is changed back and forth every few selections for a while (clients asking with
+                    # different priorities): it must keep its turn, a change must not make it start waiting anew each time
+                    i = rng.choice(sorted(set(present) - cond_refs))
+                    pa = present[i]
+                    pb = rng.choice([x for x in range(1, 10) if x != pa])
+                    for _rep in range(rng.randrange(15, 40)):
+                        for pp in (pb, pa):
+                            lines.append('SETPRIO\tm\tpc\tp%d\t%d' % (i, pp))
+                            plan.append(('flap', i, pp, max(pa, pb)))
+                            kk = rng.randrange(1, 5)
+                            now += rng.choice([0, 1])
+                            lines.append('TIME\t%d' % now)
+                            plan.append(None)
+                            lines.append('POLL\tm\t%d' % kk)
+                            plan.append(('poll',))
+                            done += kk
+                    present[i] = pa
+                elif r < 0.16 and idle and len(present) < 12:
                     i = idle.pop()
                     p = rng.randrange(1, 10)
                     lines.append('SETPRIO\tm\tpc\tp%d\t%d' % (i, p))
@@ -115,6 +133,7 @@ def shard(args):
         npert = 0
         newmsg = None               # id of a message loaded after polling started and the ids it still has to let through
         recent = []                 # the last selections (sliding window)
+        flapmax = {}                # message whose priority is being changed back and forth -> the larger of the two priorities
         late_added = set()          # messages loaded after polling had started (they begin at poll order 0: known finding)
 
         def monopolising():
@@ -183,6 +202,8 @@ def shard(args):
                         lastj = last_sel.get(j)
                         if lastj is None:
                             continue
+                        if j in flapmax:
+                            pj = max(pj, flapmax[j])      # (it waited part of the time with the larger of its two priorities)
                         bound = sum(-(-pj // pk) + 1 for k, pk in cur.items() if k != j) + 2
                         gap = sel_index - lastj - (1 if j == i else 0)
                         slack = N + 18 if since_pert < settle() else 0
@@ -225,6 +246,16 @@ def shard(args):
             close_window()
             npert += 1
             since_pert = 0
+            if pl[0] == 'flap':
+                # priority flapping: the waiting window of the message whose priority flaps goes on (with the settling slack); those of the
+                # others restart as at any perturbation (their bounds depend on the priority that just changed)
+                stats['perturbation_kinds']['flap'] = stats['perturbation_kinds'].get('flap', 0) + 1
+                if len(o) > 2 and o[2].isdigit() and pl[1] in cur:
+                    cur[pl[1]] = int(o[2])
+                last_sel = {k: (v if k == pl[1] else sel_index) for k, v in last_sel.items()}
+                flapmax = {pl[1]: pl[3]}
+                continue
+            flapmax = {}
             last_sel = {k: sel_index for k in last_sel}    # waiting windows restart at every perturbation
             stats['perturbation_kinds'][pl[0]] = stats['perturbation_kinds'].get(pl[0], 0) + 1
             if pl[0] == 'setprio':
